@@ -204,6 +204,9 @@ CLAIMED = {
               "handler's own code and message, -32603, -102 or -101, nothing for a notification; for every assignment of "
               "outcomes to any number of requests/notifications and every completion order the session stays alive, the wire "
               "holds exactly the replies in completion order, every failed request adds 1 error and base + specific cost. The "
+              "except ladder itself (clauses in source order, what each does with the exception, disconnect / hook) is REGENERATED "
+              "from the source of _throttled_request on every run together with an issubclass table probed on the running classes, "
+              "and a theorem shows that the first clause catching each outcome's exception is the one the model implements. The "
               "property was FALSE on the original tree for non-encodable results (F8, message loop died with the transport "
               "open): repaired by a fix: commit. Correspondence: real serving RPCSession in virtual time, up to 12 concurrent "
               "requests / notifications / batch members with scripted behaviours and completion orders, then a probe request."),
